@@ -1,4 +1,4 @@
-import ReplicatProofs.Lemmas.SymHistory
+import ReplicatProofs.Lemmas.SymView
 /-!
 # C05 — an encrypted repository reveals no plaintext at rest
 
@@ -10,6 +10,14 @@ The observer is the full Dolev–Yao closure `DY`: projections, decryption with 
 (pairing, hashing, MAC, KDF, encryption) applied to what he already has.  Assumption: ideal cryptography (free term algebra),
 fresh `os.urandom` values (the supply counter); lengths and access patterns are not modelled (the property does not ask for
 them).  Well-formedness of the inputs (`InitArgs.wf`, `Op.wf`): algorithm settings are public constants, passwords are secrets.
+
+Clients.  `run` lets every command act under the repository's own `encrypted` flag.  The code takes that flag from whatever
+bytes the client parsed as the config, so the last three theorems speak about `runView`: every command carries the view its
+client really had.  `client_history_public` — secrecy for every history of client commands whose views are faithful, whatever
+client-side state (shared cache directory, other repositories, earlier incarnations of the location) surrounds them;
+`stale_view_leaks` — the hypothesis is necessary (false of the model AND of any code that lets client state decide the view);
+the harness checks the hypothesis on the real code by running several repositories through one client state and feeding the
+views the real clients had to the model.
 -/
 namespace Replicat.C05
 open Replicat Replicat.Sym
@@ -108,6 +116,53 @@ theorem remove_writes_nothing (a : InitArgs) (ops : List Op) (locs : List Term) 
     written a (ops ++ [.remove locs]) = written a ops := by
   simp [written, run, List.foldl_append, step]
 
+/-- **Faithful clients write what `run` writes.**  If every command is issued under the repository's own flag, the history of
+client commands is the history of `run` — no other component of a client's state enters the model. -/
+theorem faithful_views_run (a : InitArgs) (ops : List (Bool × Op)) (hv : ∀ vo ∈ ops, vo.1 = a.encrypted) :
+    runView a ops = run a (ops.map (·.2)) := by
+  unfold runView run
+  apply foldl_view_faithful
+  intro vo hvo
+  rw [initSt_encrypted]
+  exact hv vo hvo
+
+/-- **Secrecy for every history of client commands with faithful views**: all that is emitted is public, every name is keyed,
+and the observer derives no secret atom, no digest of one and no generated key. -/
+theorem client_history_public (a : InitArgs) (ha : a.wf) (he : a.encrypted = true) (ops : List (Bool × Op))
+    (hops : ∀ vo ∈ ops, vo.2.wf) (hv : ∀ vo ∈ ops, vo.1 = true) :
+    (∀ e ∈ writtenView a ops, Public e.1 = true ∧ Public e.2 = true ∧ nameKeyed e.1 = true) ∧
+    (∀ s, ¬ DY (fun t => ∃ e ∈ writtenView a ops, t = e.1 ∨ t = e.2) (sec s)) ∧
+    (∀ s, ¬ DY (fun t => ∃ e ∈ writtenView a ops, t = e.1 ∨ t = e.2) (Term.hash (sec s))) ∧
+    (∀ k, ¬ DY (fun t => ∃ e ∈ writtenView a ops, t = e.1 ∨ t = e.2) (key k)) := by
+  have hrun : writtenView a ops = written a (ops.map (·.2)) := by
+    unfold writtenView written
+    rw [faithful_views_run a ops (fun vo hvo => by rw [hv vo hvo, he])]
+  have hw : ∀ op ∈ ops.map (·.2), op.wf := by
+    intro op hop
+    obtain ⟨vo, hvo, rfl⟩ := List.mem_map.mp hop
+    exact hops vo hvo
+  rw [hrun]
+  obtain ⟨h1, h2, h3, _⟩ := no_plain_secret a ha he _ hw
+  refine ⟨fun e hmem => ?_, h1, h2, h3⟩
+  exact ⟨(written_public a ha he _ hw e hmem).1, (written_public a ha he _ hw e hmem).2, names_are_macs a ha he _ hw e hmem⟩
+
+/-- **The hypothesis on the views is necessary** (negation witness of the statement without it): ONE snapshot issued by a client
+that believes an encrypted repository to be unencrypted stores the chunk in the clear, under a name that is the plain digest of
+its content, and the snapshot body (path, metadata, note, digests) unencrypted. -/
+theorem stale_view_leaks :
+    ∃ (a : InitArgs) (ops : List (Bool × Op)), a.wf ∧ a.encrypted = true ∧ (∀ vo ∈ ops, vo.2.wf) ∧
+      (∃ e ∈ writtenView a ops, Public e.2 = false ∧ nameKeyed e.1 = false) ∧
+      (∃ s, DY (fun t => ∃ e ∈ writtenView a ops, t = e.1 ∨ t = e.2) (sec s)) := by
+  refine ⟨⟨true, pub 10, pub 11, pub 12, sec 100⟩,
+    [(false, .snapshot 0 [sec 1] ⟨1, [⟨sec 50, [⟨0, 1, 0, 4⟩], Term.hash (sec 60), sec 70⟩], sec 80⟩)], ?_, rfl, ?_, ?_, ?_⟩
+  · exact ⟨rfl, rfl, rfl, rfl⟩
+  · intro vo hvo
+    simp only [List.mem_singleton] at hvo
+    subst hvo
+    trivial
+  · exact ⟨(pair prefixChunk (pair (digest (sec 1)) (digest (sec 1))), sec 1), by decide +kernel, rfl, by decide +kernel⟩
+  · exact ⟨1, DY.init ⟨(pair prefixChunk (pair (digest (sec 1)) (digest (sec 1))), sec 1), by decide +kernel, Or.inr rfl⟩⟩
+
 /-- the secrecy statement is about ENCRYPTED repositories only: an unencrypted repository stores the chunk in the clear, and
 `Public` notices (so the theorems above are not vacuous) -/
 example :
@@ -123,6 +178,19 @@ example :
       .remove [], .snapshot 1 [sec 2, sec 3] ⟨2, [], nil⟩]
     (written a ops).length = 8 ∧ (written a ops).all (fun e => Public e.1 && Public e.2 && nameKeyed e.1) = true
       ∧ (run a ops).uses.length = 11 := by
+  decide +kernel
+
+/-- non-vacuity of the client theorems: two faithful clients (shared key, snapshots) — everything emitted is public and keyed;
+and the SAME second snapshot issued under the stale view `false` is not -/
+example :
+    let a : InitArgs := ⟨true, pub 10, pub 11, pub 12, sec 100⟩
+    let k : Op := .addKey 0 true (pub 11) (pub 12) (sec 101)
+    let s1 : Op := .snapshot 0 [sec 1, sec 2] ⟨1, [⟨sec 50, [⟨0, 1, 0, 4⟩], Term.hash (sec 60), sec 70⟩], sec 80⟩
+    let s2 : Op := .snapshot 1 [sec 2, sec 3] ⟨2, [], sec 81⟩
+    (writtenView a [(true, k), (true, s1), (true, s2)]).length = 8 ∧
+    (writtenView a [(true, k), (true, s1), (true, s2)]).all (fun e => Public e.1 && Public e.2 && nameKeyed e.1) = true ∧
+    (writtenView a [(true, k), (true, s1), (false, s2)]).all (fun e => Public e.1 && Public e.2 && nameKeyed e.1) = false ∧
+    (runView a [(true, k), (true, s1), (false, s2)]).encrypted = true := by
   decide +kernel
 
 end Replicat.C05
